@@ -57,6 +57,11 @@ type Solver struct {
 	asserted  []*Term // assertions of the current path (for one-shot retries, solver_oneshot.go)
 	oneShotMs int     // 0: 4x the incremental timeout
 	noOneShot bool
+	fresh      bool // solver_fresh.go
+	freshBuf   strings.Builder
+	freshExtra string
+	hdr        string
+	retryBin  string // solver spec for one-shot retries (default: bin)
 	tactic   string   // non-empty: (check-sat-using <tactic>) instead of (check-sat)
 	logf     *os.File // VERIF_SMTLOG=<dir>: transcript of everything sent (diagnostics)
 }
@@ -83,6 +88,9 @@ func solverArgs(bin string) []string {
 
 func NewSolver(bin string, timeoutMs int) (*Solver, error) {
 	s := &Solver{bin: bin, timeoutMs: timeoutMs}
+	if i := strings.Index(bin, "+"); i > 0 { // "main+retry": e.g. z3+cvc5-bvint (solver_oneshot.go)
+		s.bin, s.retryBin = bin[:i], bin[i+1:]
+	}
 	if err := s.start(); err != nil {
 		return nil, err
 	}
@@ -105,7 +113,7 @@ func (s *Solver) start() error {
 	}
 	s.in = in
 	s.out = bufio.NewReaderSize(out, 1<<16)
-	s.em = NewEmitter()
+	s.em = s.newEmitter()
 	s.depth = 0
 	s.dead = false
 	if d := os.Getenv("VERIF_SMTLOG"); d != "" && s.logf == nil {
@@ -118,7 +126,8 @@ func (s *Solver) start() error {
 	} else {
 		hdr += fmt.Sprintf("(set-option :timeout %d)\n", s.timeoutMs)
 	}
-	s.send(hdr)
+	s.hdr = hdr
+	s.sendNow(hdr)
 	return nil
 }
 
@@ -136,6 +145,10 @@ func (s *Solver) restart() {
 }
 
 func (s *Solver) send(txt string) {
+	if s.fresh { // solver_fresh.go
+		s.freshSend(txt)
+		return
+	}
 	if s.keepLog {
 		s.script.WriteString(txt)
 	}
@@ -149,6 +162,14 @@ func (s *Solver) send(txt string) {
 
 var solverSeq int64
 
+var queryLog = func() *os.File {
+	if f := os.Getenv("VERIF_QUERYLOG"); f != "" {
+		fh, _ := os.OpenFile(f, os.O_CREATE|os.O_WRONLY|os.O_APPEND, 0o644)
+		return fh
+	}
+	return nil
+}()
+
 // Reset discards all assertions (start of a new path).
 func (s *Solver) Reset() {
 	s.asserted = s.asserted[:0]
@@ -160,7 +181,7 @@ func (s *Solver) Reset() {
 		s.send("(pop)\n")
 		s.depth--
 	}
-	s.em = NewEmitter()
+	s.em = s.newEmitter()
 	s.script.Reset()
 	s.asserted = s.asserted[:0]
 	s.send("(push)\n")
@@ -183,7 +204,8 @@ func (s *Solver) readLine() (string, error) {
 func (s *Solver) checkRaw() SatResult {
 	t0 := time.Now()
 	if s.tactic != "" {
-		s.send("(check-sat-using " + s.tactic + ")\n")
+		// (set-option :timeout) does not bound tactics: try-for does
+		s.send(fmt.Sprintf("(check-sat-using (try-for %s %d))\n", s.tactic, s.timeoutMs))
 	} else {
 		s.send("(check-sat)\n")
 	}
@@ -222,6 +244,9 @@ func (s *Solver) checkRaw() SatResult {
 	s.stats.Nanos += int64(time.Since(t0))
 	if d := time.Since(t0); d > 3*time.Second && slowLog != nil {
 		slowLog(d, res, s.context)
+	}
+	if queryLog != nil && s.context != nil { // VERIF_QUERYLOG=<file>: one line per query (diagnostics)
+		fmt.Fprintf(queryLog, "%.3f %s %s\n", time.Since(t0).Seconds(), res, s.context())
 	}
 	switch res {
 	case Sat:
@@ -282,8 +307,17 @@ func (s *Solver) GetValues(ts []*Term) ([]*big.Int, error) {
 		return nil, nil
 	}
 	var sb strings.Builder
+	if s.fresh { // solver_fresh.go: new terms become macros here (an assertion would invalidate the model)
+		s.em.assertStyle = false
+	}
 	for _, t := range ts {
 		s.em.Define(t)
+	}
+	if s.fresh {
+		s.em.assertStyle = true
+		defs := s.em.Take()
+		s.freshBuf.WriteString(defs)
+		s.sendNow(defs)
 	}
 	s.send(s.em.Take())
 	sb.WriteString("(get-value (")
@@ -292,7 +326,11 @@ func (s *Solver) GetValues(ts []*Term) ([]*big.Int, error) {
 		sb.WriteByte(' ')
 	}
 	sb.WriteString("))\n")
-	s.send(sb.String())
+	if s.fresh {
+		s.sendNow(sb.String())
+	} else {
+		s.send(sb.String())
+	}
 	// read balanced s-expression
 	var buf strings.Builder
 	depth := 0
